@@ -1,15 +1,24 @@
 --------------------------- MODULE Trace_Emission ---------------------------
 (* C02, binding B.  Every event is a projection of one real run of              *)
 (* EmissionModel / DirectImageModel on a random atmosphere:                      *)
-(*   quad   : the quadrature the model uses (nodes, weights scaled by S)         *)
-(*            -> WeightsFacts: sum w = 1, sum w mu = 1/2, nodes inside (0,1)     *)
+(*   quad   : the quadrature the model uses (nodes, weights scaled by S), the     *)
+(*            number of points asked for (req) and the public route it was asked *)
+(*            through (constructor keyword / set_num_gauss on the live model)    *)
+(*            -> WeightsFacts: sum w = 1, sum w mu = 1/2, nodes inside (0,1),    *)
+(*               exactly req points                                              *)
+(*   planck : the repository's Planck function at one (wavenumber, temperature): *)
+(*            xu = floor(10^4 h c nu / k T), err = |B/B_documented - 1| in units *)
+(*            of 1e-16 -> within the rounding licensed by module PlanckTol       *)
 (*   bounds : lo = min value/B_cold, hi = max value/B_hot (scaled by S);         *)
 (*            iso = 1: lo, hi = min, max of value/B(T) -> IsothermalIdentity,    *)
 (*            else HotColdBounds; sat = 1 licenses the clamp excess 2^-SlackE    *)
 (*   direct : direct-image output / (flux Rp^2/d^2) -> one constant for all      *)
 (* Stateless events are judged one by one (rejected ones are printed as BAD);    *)
 (* the direct-image law is stateful through the register ref.                    *)
-EXTENDS Integers, Sequences, TLC, Json, IOUtils, TLCExt
+(* Coverage of the quantifier ("numbers of quadrature points (>= 1)", every       *)
+(* regime of h c nu / k T) is part of the specification: COVER lists the (route,  *)
+(* size class) cells and the decades of x that the trace does NOT contain.        *)
+EXTENDS Integers, Sequences, TLC, Json, IOUtils, TLCExt, PlanckTol
 VARIABLES l, ref
 TraceLog == ndJsonDeserialize(IOEnv.TRACE_FILE)
 SlackE == 14
@@ -28,15 +37,28 @@ QuadOk(e) ==
         /\ \A i \in 1..n : e.mu[i] > 0 /\ e.mu[i] < e.S /\ e.w[i] > 0
         /\ AbsI(SumTo(e.w, n) - e.S) <= n
         /\ AbsI(2 * SumTo(wm, n) - e.S * e.S) <= 2 * n * e.S
+QuadEvOk(e) == QuadOk(e) /\ Len(e.mu) = e.req
+PlanckOk(e) == XDomainOk(e.xu) /\ e.err >= 0 /\ e.err <= PlanckTolU(e.xu)
 BoundsOk(e) ==
     /\ e.lo >= e.S - Tol
     /\ e.hi <= e.S + e.sat * SlackUnits(e.S) + Tol
 DirectOk(e) == e.r > 0 /\ (ref = 0 \/ AbsI(e.r - ref) <= Tol)
 
-Ok(e) == CASE e.ev = "quad"   -> QuadOk(e)
+Ok(e) == CASE e.ev = "quad"   -> QuadEvOk(e)
+           [] e.ev = "planck" -> PlanckOk(e)
            [] e.ev = "bounds" -> BoundsOk(e)
            [] e.ev = "direct" -> DirectOk(e)
            [] OTHER -> FALSE
+\* ---- coverage classes
+NClass(n) == IF n <= 1 THEN 1 ELSE IF n <= 4 THEN 4 ELSE IF n <= 8 THEN 8 ELSE IF n <= 16 THEN 16
+             ELSE IF n <= 32 THEN 32 ELSE 64
+QuadRoutes == {"constructor", "set_num_gauss"}
+EvIdx(kind) == {i \in 1..Len(TraceLog) : TraceLog[i].ev = kind}
+QuadMissing == (QuadRoutes \X {1, 4, 8, 16, 32, 64})
+               \ {<<TraceLog[i].route, NClass(TraceLog[i].req)>> : i \in EvIdx("quad")}
+PlanckMissing == XDecades \ {XDecade(TraceLog[i].xu) : i \in EvIdx("planck")}
+ASSUME PrintT(<<"COVER", ToJson([quad |-> QuadMissing, planck |-> PlanckMissing])>>)
+
 Init == l = 1 /\ ref = 0
 Step == /\ l <= Len(TraceLog)
         /\ LET e == TraceLog[l] IN
